@@ -20,7 +20,7 @@ scalar / ndarray / Series agreement, the strains.  EVERY clause is evaluated for
 known finding is noted (`Prop.known`) and the element is left out of the later clauses, the examination goes on.
 
 No C06 finding is open today (all recorded solver classes are fixed: c6e709f, ba2ed2a, de286fc, b50f603, 4ade39c, e1dd979,
-bb99960, 805617f).  The RECORDED classes stay tied to their mechanism: `legacy_solver` reproduces the solver algorithm of the
+bb99960, 805617f; the follow-up 8e3c607 removed a bias of the b50f603 bisection that stayed inside the tolerance).  The RECORDED classes stay tied to their mechanism: `legacy_solver` reproduces the solver algorithm of the
 tree the findings were recorded on (scipy's vectorised / scalar secant resp. Newton iteration with the recorded start values
 and iteration limits, run on the law's own defining functions); a miss belongs to a recorded class only if the value the code
 returned IS the value of that reproduction (1e-12 relative), and it is tolerated only while that class has status "open" in
@@ -340,7 +340,16 @@ class C06(Prop):
             "The iteration of the REPAIRED solver (bisection inside the bracket, /repo commit b50f603) is proved to "
             "converge to that root (seegerBeste_bisection_converges / _backward_); the Seeger-Beste solver of the checked tree IS that bisection, "
             "and what it returns is measured per run against an independent bisection.  The four solver defects recorded on the tree before "
-            "the repair (scipy secant / Newton iterations) are fixed: c6e709f, ba2ed2a (extended Neuber), de286fc, b50f603 (Seeger-Beste)",
+            "the repair (scipy secant / Newton iterations) are fixed: c6e709f, ba2ed2a (extended Neuber), de286fc, b50f603 (Seeger-Beste; its "
+            "stopping rule and end values were corrected by 8e3c607).  (The name carries no `_partial` suffix: the theorem is complete as stated; "
+            "it is listed here because the PROPERTY's claim - the value the solver returns - is covered only up to the measured part.)",
+        "PylifeVerif.C06.seegerBeste_domain_partial":
+            "holds on the OPEN bracket L/K_p < sigma < L (K_p > 1, L > 0) only: there none of the np.divide fall-backs is taken and the coded "
+            "function is eq. 2.8-42.  Missing: the bracket ends and everything outside, where the code evaluates fall-back values (covered by the "
+            "correspondence at Float, not by a theorem)",
+        "PylifeVerif.C06.seegerBeste_root_iff_partial":
+            "same restriction as seegerBeste_domain_partial: the equivalence 'root of the coded quotient form <=> eq. 2.8-42 in product form' is "
+            "proved on the open bracket only; at the ends and outside the quotient form has fall-back values and further, meaningless roots",
     }
     RULE = ("case = law (extended Neuber / Seeger-Beste) x FKM-estimated material (3 groups, R_m in [200, 2000]) x K_p in "
             "{1, 1.001, 1.5, 3.5, 10} (Seeger-Beste > 1) or random x tolerance rtol = tol in [1e-10, 1e-4] x spaced grid of loads up to "
@@ -367,9 +376,11 @@ class C06(Prop):
             "call returned")
     ASSUMPTIONS = [
         "C06: theorems are over the reals about the defining functions as coded (incl. the np.divide fall-backs) and about bisection "
-        "inside the bracket (the halving loop of the repaired Seeger-Beste solver, without its stopping rule - interval below 5 % of tol + rtol |root| - and its final clipped linear "
-        "interpolation, /repo commit b50f603); what scipy.optimize.newton returns (extended Neuber; Seeger-Beste only on the tree before "
-        "b50f603) is not provable from here - measured per run",
+        "inside the bracket (the halving loop of the repaired Seeger-Beste solver, /repo commit b50f603, without its stopping rule and its final clipped linear "
+        "interpolation; since /repo commit 8e3c607 the loop stops when the interval is below 5 % of tol + rtol |root| - b50f603 stopped at 2 (tol + rtol |root|) - and the "
+        "interpolation uses the analytic limits of the implicit function as function values at the initial bounds (forward: -1 at L/K_p and eps(L)/(K_p e*(L)) - 1 at L, "
+        "theorem seegerBeste_implicit_limit_at_load; backward: the same two values with the sign of the negated function), scalars being solved through the array path); what scipy.optimize.newton returns "
+        "(extended Neuber; Seeger-Beste only on the tree before b50f603) is not provable from here - measured per run",
         "C06: Proofs/C06Newton.lean (derivative handed to Newton's method by the repaired ExtendedNeuber.load, /repo commit c6e709f, monotone "
         "iteration from K_p sigma, /repo commit ba2ed2a) is written from the source of the repaired tree (`roCompliance`, `dLoadImplicit`, `newtonLoad`) and is NOT tied to the "
         "code by the correspondence: the derivative is not an observable of the property; the values `load` returns are",
